@@ -287,7 +287,7 @@ impl Property for C04 {
             if rng.chance(1, 6) {
                 // int/float declarations of every declared width incl. unsupported ones
                 let at = rng.usize_below(stream.insts.len() + 1);
-                let w = *rng.pick(&[0u32, 1, 7, 8, 16, 24, 32, 33, 48, 64, 65, 128, 0x8000_0000]);
+                let w = if rng.chance(1, 6) { crate::producer::near_miss_width(rng) } else { *rng.pick(&[0u32, 1, 7, 8, 16, 24, 32, 33, 48, 64, 65, 128, 0x8000_0000]) };
                 let float = rng.chance(1, 2);
                 let mut ops = vec![MOp::W(s.k_lit32, w)];
                 if !float {
